@@ -76,3 +76,64 @@ func checkTLSGatePolarity(c *Ctx, res *report.Result, rule string) {
 		}
 	}
 }
+
+// checkClientRecvLimit (O6.14): the client connections the relays read replication messages with accept messages
+// up to Temporal's internode limit: MakeDialOptions passes grpc.MaxCallRecvMsgSize(c), c a constant of at least
+// 128 MiB, to grpc.WithDefaultCallOptions. Without it gRPC's default of 4 MiB applies to what the proxy receives:
+// a larger replication batch fails the relay's Recv with ResourceExhausted, the forwarder ends the stream as if
+// the source had closed it, and the batch - and everything after it - is dropped on every reconnect.
+func checkClientRecvLimit(c *Ctx, res *report.Result, rule string) {
+	f := resolve(c, res, rule, anchor{"transport/grpcutil", "", "MakeDialOptions"})
+	if f == nil {
+		return
+	}
+	const internodeLimit = 128 * 1024 * 1024
+	var lim *ssa.Call
+	for _, call := range flow.Calls(f) {
+		if flow.IsCallTo(call.Common(), "google.golang.org/grpc", "", "MaxCallRecvMsgSize") {
+			lim, _ = call.(*ssa.Call)
+		}
+	}
+	construct := "MakeDialOptions: the relay clients accept messages up to the internode limit"
+	if lim == nil {
+		res.Viol(rule, construct, fnPos(c.Prog, f), "no grpc.MaxCallRecvMsgSize among the dial options: gRPC's 4 MiB default applies to every message the proxy receives from a cluster, and a larger replication batch ends the relay as if the source had closed the stream")
+		return
+	}
+	k, isK := flow.ConstInt(lim.Call.Args[0])
+	if !isK || k < internodeLimit {
+		res.Viol(rule, construct, instrPos(c.Prog, lim), "the receive limit is not a constant of at least 128 MiB (Temporal's internode maximum): replication batches between the limit and 128 MiB are refused by the proxy's own client")
+		return
+	}
+	// it reaches WithDefaultCallOptions
+	reaches := false
+	var seen = map[ssa.Value]bool{}
+	var walk func(v ssa.Value, d int)
+	walk = func(v ssa.Value, d int) {
+		if d > 6 || seen[v] || v.Referrers() == nil {
+			return
+		}
+		seen[v] = true
+		for _, r := range *v.Referrers() {
+			switch x := r.(type) {
+			case *ssa.Store:
+				if ia, ok := x.Addr.(*ssa.IndexAddr); ok {
+					walk(ia.X, d+1)
+				}
+			case *ssa.Slice:
+				walk(x, d+1)
+			case *ssa.MakeInterface:
+				walk(x, d+1)
+			case *ssa.ChangeInterface:
+				walk(x, d+1)
+			case *ssa.Call:
+				if flow.IsCallTo(&x.Call, "google.golang.org/grpc", "", "WithDefaultCallOptions") {
+					reaches = true
+				}
+			case *ssa.IndexAddr:
+				walk(x, d+1)
+			}
+		}
+	}
+	walk(lim, 0)
+	res.Check(reaches, rule, construct, instrPos(c.Prog, lim), "grpc.WithDefaultCallOptions(.., grpc.MaxCallRecvMsgSize(128 MiB), ..)", "the receive limit option is built but not handed to grpc.WithDefaultCallOptions")
+}
